@@ -298,7 +298,8 @@ func (h h2) Run(env *Env, cfg any) {
 	for _, b := range sh.bodies {
 		seen[b.Iter]++
 	}
-	for k, v := range seen {
+	for _, k := range sortedKeys(seen) {
+		v := seen[k]
 		if v > 1 {
 			env.Violate("C03", "duplicate-id", "pool", "iteration id %q observed by %d invocations", k, v)
 		}
